@@ -100,15 +100,15 @@ theorem Node.lastCompo_sub : ∀ (pR : List Nat) (root : Node) (i : Nat) (id rid
 
 /-! ### Act / Clean and sub-state lists -/
 
-theorem Subs.cleanAll_get : ∀ {s : Subs} {k : Nat} {c : Node}, s.CleanAll → s.get? k = some c → c.Clean
+theorem Subs.cleanAll_get_q : ∀ {s : Subs} {k : Nat} {c : Node}, s.CleanAll → s.get? k = some c → c.Clean
   | .nil, _, _, _, h => by simp [Subs.get?] at h
   | .cons _ n r, 0, c, hc, h => by
     simp only [Subs.get?, Option.some.injEq] at h; subst h; exact (by simpa [Subs.CleanAll] using hc : _ ∧ _).1
   | .cons _ n r, k+1, c, hc, h => by
     simp only [Subs.get?] at h
-    exact Subs.cleanAll_get (by simpa [Subs.CleanAll] using hc : _ ∧ _).2 h
+    exact Subs.cleanAll_get_q (by simpa [Subs.CleanAll] using hc : _ ∧ _).2 h
 
-theorem Subs.actAt_get : ∀ {s : Subs} {i k : Nat} {c : Node}, s.ActAt i → s.get? k = some c →
+theorem Subs.actAt_get_q : ∀ {s : Subs} {i k : Nat} {c : Node}, s.ActAt i → s.get? k = some c →
     (k = i → c.Act) ∧ (k ≠ i → c.Clean)
   | .nil, _, _, _, h, _ => by simp [Subs.ActAt] at h
   | .cons _ n r, 0, 0, c, ha, h => by
@@ -116,32 +116,32 @@ theorem Subs.actAt_get : ∀ {s : Subs} {i k : Nat} {c : Node}, s.ActAt i → s.
     exact ⟨fun _ => (by simpa [Subs.ActAt] using ha : _ ∧ _).1, fun h => absurd rfl h⟩
   | .cons _ n r, 0, k+1, c, ha, h => by
     simp only [Subs.get?] at h
-    exact ⟨fun h => by omega, fun _ => Subs.cleanAll_get (by simpa [Subs.ActAt] using ha : _ ∧ _).2 h⟩
+    exact ⟨fun h => by omega, fun _ => Subs.cleanAll_get_q (by simpa [Subs.ActAt] using ha : _ ∧ _).2 h⟩
   | .cons _ n r, i+1, 0, c, ha, h => by
     simp only [Subs.get?, Option.some.injEq] at h; subst h
     exact ⟨fun h => by omega, fun _ => (by simpa [Subs.ActAt] using ha : _ ∧ _).1⟩
   | .cons _ n r, i+1, k+1, c, ha, h => by
     simp only [Subs.get?] at h
-    have := Subs.actAt_get (by simpa [Subs.ActAt] using ha : _ ∧ _).2 h
+    have := Subs.actAt_get_q (by simpa [Subs.ActAt] using ha : _ ∧ _).2 h
     exact ⟨fun h => this.1 (by omega), fun h => this.2 (by omega)⟩
 
-theorem Subs.actAt_exists : ∀ {s : Subs} {i : Nat}, s.ActAt i → ∃ c, s.get? i = some c
+theorem Subs.actAt_exists_q : ∀ {s : Subs} {i : Nat}, s.ActAt i → ∃ c, s.get? i = some c
   | .nil, _, h => by simp [Subs.ActAt] at h
   | .cons _ n r, 0, _ => ⟨n, rfl⟩
   | .cons _ n r, i+1, h => by
     simp only [Subs.get?]
-    exact Subs.actAt_exists (by simpa [Subs.ActAt] using h : _ ∧ _).2
+    exact Subs.actAt_exists_q (by simpa [Subs.ActAt] using h : _ ∧ _).2
 
-theorem Subs.actAll_get : ∀ {s : Subs} {k : Nat} {c : Node}, s.ActAll → s.get? k = some c → c.Act
+theorem Subs.actAll_get_q : ∀ {s : Subs} {k : Nat} {c : Node}, s.ActAll → s.get? k = some c → c.Act
   | .nil, _, _, _, h => by simp [Subs.get?] at h
   | .cons _ n r, 0, c, hc, h => by
     simp only [Subs.get?, Option.some.injEq] at h; subst h; exact (by simpa [Subs.ActAll] using hc : _ ∧ _).1
   | .cons _ n r, k+1, c, hc, h => by
     simp only [Subs.get?] at h
-    exact Subs.actAll_get (by simpa [Subs.ActAll] using hc : _ ∧ _).2 h
+    exact Subs.actAll_get_q (by simpa [Subs.ActAll] using hc : _ ∧ _).2 h
 
 /-- In a clean (inactive) sub-tree every state is reported inactive. -/
-theorem Node.nearest_clean : ∀ (p : List Nat) (n : Node), n.Clean → Node.nearest qActive n p false = false
+theorem Node.nearest_clean_q : ∀ (p : List Nat) (n : Node), n.Clean → Node.nearest qActive n p false = false
   | [], _, _ => rfl
   | k :: rest, n, hc => by
     simp only [Node.nearest]
@@ -155,11 +155,11 @@ theorem Node.nearest_clean : ∀ (p : List Nat) (n : Node), n.Clean → Node.nea
         simp only [Node.subs] at hk
         have : qActive a r q k = false := by simp [qActive, hc.1]
         simp only [this]
-        exact Node.nearest_clean rest c (Subs.cleanAll_get hc.2 hk)
+        exact Node.nearest_clean_q rest c (Subs.cleanAll_get_q hc.2 hk)
       | ortho id rid inj h s =>
         simp only [Node.Clean] at hc
         simp only [Node.subs] at hk
-        exact Node.nearest_clean rest c (Subs.cleanAll_get hc hk)
+        exact Node.nearest_clean_q rest c (Subs.cleanAll_get_q hc hk)
 
 /-! ### §2 how the commit pass reaches a state -/
 
@@ -222,7 +222,7 @@ def Node.willExit (root : Node) (p : List Nat) : Bool := exited (root.arrive .co
 section Lists
 variable {U : Type}
 
-theorem Subs.get?_exitAt : ∀ (s : Subs) (i k : Nat) (w : World U),
+theorem Subs.get?_exitAt_q : ∀ (s : Subs) (i k : Nat) (w : World U),
     (s.exitAt i w).1.get? k = if k = i then (s.get? i).map (fun c => (c.exit w).1) else s.get? k
   | .nil, _, _, _ => by simp [Subs.exitAt, Subs.get?]
   | .cons b n r, 0, 0, w => by simp [Subs.exitAt, Subs.get?]
@@ -230,9 +230,9 @@ theorem Subs.get?_exitAt : ∀ (s : Subs) (i k : Nat) (w : World U),
   | .cons b n r, i+1, 0, w => by simp [Subs.exitAt, Subs.get?]
   | .cons b n r, i+1, k+1, w => by
     simp only [Subs.exitAt, Subs.get?, Nat.add_right_cancel_iff]
-    exact Subs.get?_exitAt r i k w
+    exact Subs.get?_exitAt_q r i k w
 
-theorem Subs.get?_enterAt : ∀ (s : Subs) (i k : Nat) (w : World U),
+theorem Subs.get?_enterAt_q : ∀ (s : Subs) (i k : Nat) (w : World U),
     (s.enterAt i w).1.get? k = if k = i then (s.get? i).map (fun c => (c.enter w).1) else s.get? k
   | .nil, _, _, _ => by simp [Subs.enterAt, Subs.get?]
   | .cons b n r, 0, 0, w => by simp [Subs.enterAt, Subs.get?]
@@ -240,9 +240,9 @@ theorem Subs.get?_enterAt : ∀ (s : Subs) (i k : Nat) (w : World U),
   | .cons b n r, i+1, 0, w => by simp [Subs.enterAt, Subs.get?]
   | .cons b n r, i+1, k+1, w => by
     simp only [Subs.enterAt, Subs.get?, Nat.add_right_cancel_iff]
-    exact Subs.get?_enterAt r i k w
+    exact Subs.get?_enterAt_q r i k w
 
-theorem Subs.get?_reenterAt : ∀ (s : Subs) (i k : Nat) (w : World U),
+theorem Subs.get?_reenterAt_q : ∀ (s : Subs) (i k : Nat) (w : World U),
     (s.reenterAt i w).1.get? k = if k = i then (s.get? i).map (fun c => (c.reenter w).1) else s.get? k
   | .nil, _, _, _ => by simp [Subs.reenterAt, Subs.get?]
   | .cons b n r, 0, 0, w => by simp [Subs.reenterAt, Subs.get?]
@@ -250,9 +250,9 @@ theorem Subs.get?_reenterAt : ∀ (s : Subs) (i k : Nat) (w : World U),
   | .cons b n r, i+1, 0, w => by simp [Subs.reenterAt, Subs.get?]
   | .cons b n r, i+1, k+1, w => by
     simp only [Subs.reenterAt, Subs.get?, Nat.add_right_cancel_iff]
-    exact Subs.get?_reenterAt r i k w
+    exact Subs.get?_reenterAt_q r i k w
 
-theorem Subs.get?_commitAt : ∀ (s : Subs) (i k : Nat) (w : World U),
+theorem Subs.get?_commitAt_q : ∀ (s : Subs) (i k : Nat) (w : World U),
     (s.commitAt i w).1.get? k = if k = i then (s.get? i).map (fun c => (c.commit w).1) else s.get? k
   | .nil, _, _, _ => by simp [Subs.commitAt, Subs.get?]
   | .cons b n r, 0, 0, w => by simp [Subs.commitAt, Subs.get?]
@@ -260,39 +260,39 @@ theorem Subs.get?_commitAt : ∀ (s : Subs) (i k : Nat) (w : World U),
   | .cons b n r, i+1, 0, w => by simp [Subs.commitAt, Subs.get?]
   | .cons b n r, i+1, k+1, w => by
     simp only [Subs.commitAt, Subs.get?, Nat.add_right_cancel_iff]
-    exact Subs.get?_commitAt r i k w
+    exact Subs.get?_commitAt_q r i k w
 
-theorem Subs.get?_exitAll : ∀ (s : Subs) (k : Nat) (w : World U),
+theorem Subs.get?_exitAll_q : ∀ (s : Subs) (k : Nat) (w : World U),
     ∃ w' : World U, (s.exitAll w).1.get? k = (s.get? k).map (fun c => (c.exit w').1)
   | .nil, _, w => ⟨w, by simp [Subs.exitAll, Subs.get?]⟩
   | .cons b n r, 0, w => ⟨w, by simp [Subs.exitAll, Subs.get?]⟩
   | .cons b n r, k+1, w => by
     simp only [Subs.exitAll, Subs.get?]
-    exact Subs.get?_exitAll r k _
+    exact Subs.get?_exitAll_q r k _
 
-theorem Subs.get?_enterAll : ∀ (s : Subs) (k : Nat) (w : World U),
+theorem Subs.get?_enterAll_q : ∀ (s : Subs) (k : Nat) (w : World U),
     ∃ w' : World U, (s.enterAll w).1.get? k = (s.get? k).map (fun c => (c.enter w').1)
   | .nil, _, w => ⟨w, by simp [Subs.enterAll, Subs.get?]⟩
   | .cons b n r, 0, w => ⟨w, by simp [Subs.enterAll, Subs.get?]⟩
   | .cons b n r, k+1, w => by
     simp only [Subs.enterAll, Subs.get?]
-    exact Subs.get?_enterAll r k _
+    exact Subs.get?_enterAll_q r k _
 
-theorem Subs.get?_reenterAll : ∀ (s : Subs) (k : Nat) (w : World U),
+theorem Subs.get?_reenterAll_q : ∀ (s : Subs) (k : Nat) (w : World U),
     ∃ w' : World U, (s.reenterAll w).1.get? k = (s.get? k).map (fun c => (c.reenter w').1)
   | .nil, _, w => ⟨w, by simp [Subs.reenterAll, Subs.get?]⟩
   | .cons b n r, 0, w => ⟨w, by simp [Subs.reenterAll, Subs.get?]⟩
   | .cons b n r, k+1, w => by
     simp only [Subs.reenterAll, Subs.get?]
-    exact Subs.get?_reenterAll r k _
+    exact Subs.get?_reenterAll_q r k _
 
-theorem Subs.get?_commitAll : ∀ (s : Subs) (k : Nat) (w : World U),
+theorem Subs.get?_commitAll_q : ∀ (s : Subs) (k : Nat) (w : World U),
     ∃ w' : World U, (s.commitAll w).1.get? k = (s.get? k).map (fun c => (c.commit w').1)
   | .nil, _, w => ⟨w, by simp [Subs.commitAll, Subs.get?]⟩
   | .cons b n r, 0, w => ⟨w, by simp [Subs.commitAll, Subs.get?]⟩
   | .cons b n r, k+1, w => by
     simp only [Subs.commitAll, Subs.get?]
-    exact Subs.get?_commitAll r k _
+    exact Subs.get?_commitAll_q r k _
 
 end Lists
 
